@@ -11,7 +11,7 @@
                          configuration, certified against the contributions by Coq-Interval (tol shards)
      panic               the Baum-Welch configuration without tr dereferences nil (known finding) *)
 From Coq Require Import ZArith List Bool QArith.
-From ADV Require Import Base.Corr C17.Model C17.ModelCfg C17.Corr.
+From ADV Require Import Base.Corr C17.Model C17.ModelCfg C17.Corr C17.ModelSaga.
 Import ListNotations.
 
 Record ocase := mkOCase {
@@ -76,11 +76,21 @@ Definition omism (cs : list ocase) : list nat := mismatches ocheck cs.
 Record sagacase := mkSaga {
   sg_k : Z; sg_n : Z;
   sg_go_parts : list (Z * Z);
-  sg_same_as_sequential : bool
+  sg_same_as_sequential : bool;
+  (* round 7: per epoch (the list drawn - recomputed by the harness from the seed with math/rand, independently of the
+     library -, the evaluation log f(j, x1) of the workers iterated on the nil pool, the log on the real pool) *)
+  sg_epochs : list (list Z * list Z * list Z)
 }.
+Definition sagaepochcheck (k : Z) (e : list Z * list Z * list Z) : bool :=
+  let '(idx, seqlog, parlog) := e in
+  match saga_epoch_log_sequential k idx with
+  | Some l => list_eqb Z.eqb l seqlog        (* nil pool: workers in order, exactly the model's concatenation *)
+  | None => false
+  end && same_bag parlog idx.                (* real pool: some interleaving - the same multiset as drawn *)
 Definition sagacheck (c : sagacase) : bool :=
   match saga_partition (sg_k c) (sg_n c) with
   | Some l => list_eqb pair_eqb l (sg_go_parts c) && sg_same_as_sequential c
   | None => false
-  end.
+  end && negb (Nat.eqb (length (sg_epochs c)) 0) &&
+  forallb (fun e => Z.eqb (Z.of_nat (length (fst (fst e)))) (sg_n c) && sagaepochcheck (sg_k c) e) (sg_epochs c).
 Definition sagamism (cs : list sagacase) : list nat := mismatches sagacheck cs.
